@@ -238,6 +238,15 @@ M = [
     ('iso-after-module-check', 'C01', I, "                if parent == 'iso':\n                    numericOid += (1,)\n                    continue\n\n                if module not in self.symbolTable:\n                    # XXX do getname for possible future borrowed mibs\n                    raise error.PySmiSemanticError('no module \"%s\" in symbolTable' % module)\n", "                if module not in self.symbolTable:\n                    # XXX do getname for possible future borrowed mibs\n                    raise error.PySmiSemanticError('no module \"%s\" in symbolTable' % module)\n\n                if parent == 'iso':\n                    numericOid += (1,)\n                    continue\n"),
     ('index-skips-modules-without-enterprise', 'C18', J, "            modData = outDict['enterprise']\n            enterprise_oid = getattr(status, 'enterprise', None)\n            if enterprise_oid:\n", "            modData = outDict['enterprise']\n            enterprise_oid = getattr(status, 'enterprise', None)\n            if not enterprise_oid:\n                continue\n            if enterprise_oid:\n"),
     ('mibcopy-walk-top-directory', 'C20', 'scripts/mibcopy.py', "        mibFiles = [(os.path.abspath(dirName), mibFile)\n", "        mibFiles = [(os.path.abspath(srcDirectory), mibFile)\n"),
+    ('defval-oid-failure-swallowed', 'C05', I, "                    # or no module if it will be borrowed later\n                    raise error.PySmiSemanticError(\n                        'no symbol \"%s\" in module \"%s\"' % (defval, module))\n", "                    # or no module if it will be borrowed later\n                    pass\n"),
+    ('defval-unknown-type-falls-through', 'C05', I, "            else:\n                raise error.PySmiSemanticError(\n                    'unknown type \"%s\" for defval \"%s\" of symbol \"%s\"' % (\n                        defvalType, defval, objname))\n", "            else:\n                pass\n"),
+    ('defval-string-store-only-when-nonempty', 'C05', I, "            outDict.update(\n                value=defval[1:-1],\n                format='string'\n            )\n", "            if defval[1:-1]:\n                outDict.update(\n                    value=defval[1:-1],\n                    format='string'\n                )\n"),
+    ('order-fallback-loop-shallow', 'C18', J, "                    for k in sorted(top):\n                        new_top[k] = order(top[k])\n", "                    for k in sorted(top):\n                        new_top[k] = top[k]\n"),
+    ('order-mapping-arm-returns-input', 'C18', J, "                return new_top\n            elif isinstance(top, list):", "                return top\n            elif isinstance(top, list):"),
+    ('order-list-arm-for-tuples', 'C18', J, "            elif isinstance(top, list):\n                new_top = []", "            elif isinstance(top, tuple):\n                new_top = []"),
+    ('index-identity-guard-negated', 'C18', J, "            if identity_oid:\n", "            if not identity_oid:\n"),
+    ('index-merge-guard-negated', 'C18', J, "        if kwargs.get('old_index_data'):\n", "        if not kwargs.get('old_index_data'):\n"),
+    ('index-enterprise-list-reset', 'C18', J, "                if enterprise_oid not in modData:\n", "                if enterprise_oid in modData:\n"),
     ('compliance-module-unguarded-subscript', 'C11', P, "        objects = p[3] and p[3][1] or []\n", "        objects = p[3][1]\n"),
 ]
 
